@@ -2,6 +2,8 @@
 //! `--features verif`) in-process and prints canonical lines that `/verif/check` diffs against the Lean
 //! model driver, or evaluates a property directly on the implementation (search).
 mod c18;
+mod gen;
+mod runner;
 mod util;
 
 fn main() {
@@ -12,6 +14,8 @@ fn main() {
         "c18-enum" => c18::enumerate(rest),
         "c18-laws" => c18::laws(rest),
         "tables" => util::dump_tables(rest),
+        "runner" => runner::main(rest),
+        "gen-stats" => runner::gen_stats(rest),
         _ => { eprintln!("unknown command {cmd:?}"); 2 }
     };
     std::process::exit(code);
